@@ -23,9 +23,11 @@ import Martian.Dataflow
 import Martian.Resolver
 import Proofs.Dataflow
 import Proofs.DataflowAlias
+import Proofs.ResolverForks
 
 namespace Props.C01
-open Martian.Dataflow Martian.Resolver Proofs.Dataflow Proofs.DataflowAlias
+open Martian.Dataflow Martian.Resolver Martian.ResolverForks Proofs.Dataflow Proofs.DataflowAlias
+  Proofs.ResolverForks
 
 /-! ## kernel laws -/
 
@@ -132,6 +134,45 @@ theorem bindingPath_sound_partial (st : StructTable) (env : Env) (f : String) (e
     (h : wt st env t e = true) :
     eval st env (bindingPath1 f e) = proj1 t f (eval st env e) :=
   bp_sound st env f e t h
+
+/-- Static projection on RESOLVED expressions (the output of the static phase:
+references evaluated against a fork assignment, `split` = the element of the
+current fork of a mapped call, `merge` = the collection over all forks of a
+mapped call, array and typed-map mode): `bpR` pushes the projection inside
+`split` and `merge` (`SplitExp.BindingPath`, `MergeExp.BindingPath`) and the
+result denotes the projection of the value, for every fork assignment.
+Not modelled: `DisabledExp`, and the choice of the `ForkNode` a run-time merge
+enumerates its forks from (F14 / F32 / F33 live there: they are found by the
+per-run comparison with `den`, not by this law). -/
+theorem bindingPath_sound_forks (st : StructTable) (ρ : Store) (fld : String) (e : RExp) (t : Ty)
+    (f : ForkAssign) (h : wtR st t e = true) :
+    evalR st ρ f (bpR fld e) = proj1 t fld (evalR st ρ f e) :=
+  bpR_sound st ρ fld e t f h
+
+/-- `split` over a call of a `merge` over the same call cancels: inside fork `k`
+the `k`-th element of the collection of per-fork values is the value of fork `k`
+(array mode; `n` forks). -/
+theorem split_merge_cancel (st : StructTable) (ρ : Store) (f : ForkAssign) (c : String)
+    (e : RExp) (n k : Nat) (hk : k < n)
+    (hidx : ρ.idx c (fset f c (.i k)) = (List.range n).map .i) :
+    evalR st ρ (fset f c (.i k)) (.split c false (.merge c false e))
+      = evalR st ρ (fset f c (.i k)) e :=
+  split_merge_cancel_arr st ρ f c e n k hk hidx
+
+/-- … and for a call mapped over a typed map with distinct keys. -/
+theorem split_merge_cancel_keys (st : StructTable) (ρ : Store) (f : ForkAssign) (c : String)
+    (e : RExp) (keys : List String) (s : String) (hs : s ∈ keys) (hn : keys.Nodup)
+    (hidx : ρ.idx c (fset f c (.k s)) = keys.map .k) :
+    evalR st ρ (fset f c (.k s)) (.split c true (.merge c true e))
+      = evalR st ρ (fset f c (.k s)) e :=
+  split_merge_cancel_map st ρ f c e keys s hs hn hidx
+
+/-- non-vacuity: a merge over `INNER` of a struct whose member is a split reference,
+projected by that member (the A.1 shape after static resolution) is well shaped -/
+example :
+    wtR [("R", [⟨"r", ⟨"int", 0, 0⟩⟩])] ⟨"R", 0, 1⟩
+      (.merge "INNER" false (.struct [("r", .split "INNER" false (.ref "GEN" ⟨"GEN", 0, 0⟩ []))])) = true := by
+  decide
 
 /-- Fork-index substitution on a split literal: the expression selected for fork
 `ix` denotes the `ix`-th element of the collection the literal denotes. -/
